@@ -599,5 +599,72 @@ Definition gen_alias_social_welfare_comparison : list py_alias :=
    mkAlias "result"%string RuleResult false;
    mkAlias "social_welfare"%string Scalar false].
 
+(* pabutools/rules/greedywelfare/greedywelfare_rule.py:144 greedy_utilitarian_scheme_additive with resoluteness=True, analytics=False
+def greedy_utilitarian_scheme_additive(instance: Instance, profile: AbstractProfile, sat_profile: GroupSatisfactionMeasure, budget_allocation: BudgetAllocation, tie_breaking: TieBreakingRule, resoluteness: bool=True, analytics: bool=False) -> BudgetAllocation | list[BudgetAllocation]:
+    if not resoluteness:
+        return greedy_utilitarian_scheme(instance, profile, sat_profile, budget_allocation, tie_breaking, resoluteness, analytics)
+    projects = sorted(instance)
+    for project in budget_allocation:
+        projects.remove(project)
+    projects = tie_breaking.order(instance, profile, projects)
+
+    def satisfaction_density(proj):
+        total_sat = sat_profile.total_satisfaction_project(proj)
+        if total_sat > 0:
+            if proj.cost > 0:
+                return frac(total_sat, proj.cost)
+            return inf
+        return 0
+    selection = BudgetAllocation(budget_allocation, details=GreedyWelfareAllocationDetails())
+    if analytics:
+        selection.details.projects.extend([GreedyWelfareProjectDetails(project, score=satisfaction_density(project)) for project in projects])
+    ordered_projects = sorted(projects, key=lambda p: (-satisfaction_density(p), projects.index(p)))
+    remaining_budget = instance.budget_limit - total_cost(budget_allocation)
+    for project in ordered_projects:
+        if project.cost <= remaining_budget:
+            selection.append(project)
+            remaining_budget -= project.cost
+            if analytics:
+                selection.details.mark_as_selected(project, remaining_budget)
+    return selection *)
+Definition gen_greedy_utilitarian_scheme_additive (v_instance : inst) (v_profile : (py_cprofile SC)) (v_sat_profile : (proj -> Q)) (v_budget_allocation : py_alloc) (v_tie_breaking : (proj -> Q)) : py_res py_alloc :=
+  let v_projects := (py_sorted_projects (py_instance_iter v_instance)) in
+  match py_for (fun (v_projects_1 : py_alloc) v_project => 
+    match (py_remove v_projects_1 v_project) with None => (Exit (Raise "ValueError"%string)) | Some rm0 => let v_projects_2 := rm0 in
+  (Next v_projects_2) end)
+    v_budget_allocation v_projects with
+  | inl v_projects_3 => let v_projects_4 := (tb_order_of_key v_tie_breaking v_projects_3) in
+  let v_ordered_projects := (py_sorted_neg_then (fun p0 => (let v_total_sat := (v_sat_profile p0) in (if (py_gt v_total_sat 0) then (if (py_gt (py_cost v_instance p0) 0) then (Fin (frac v_total_sat (py_cost v_instance p0))) else PInf) else (Fin 0)))) (fun p0 => (py_index_of v_projects_4 p0)) v_projects_4) in
+  let v_remaining_budget := ((budget v_instance) - (py_total_cost v_instance v_budget_allocation)) in
+  match py_for (fun (st1 : (py_alloc * Q)%type) v_project_1 => let '(v_selection, v_remaining_budget_1) := st1 in 
+    let '(v_selection_2, v_remaining_budget_3) := (if (py_le (py_cost v_instance v_project_1) v_remaining_budget_1)
+  then let v_selection_1 := (v_selection ++ [v_project_1]) in
+  let v_remaining_budget_2 := (v_remaining_budget_1 - (py_cost v_instance v_project_1)) in
+  (v_selection_1, v_remaining_budget_2)
+  else (v_selection, v_remaining_budget_1)) in
+  (Next (v_selection_2, v_remaining_budget_3)))
+    v_ordered_projects (v_budget_allocation, v_remaining_budget) with
+  | inl st0 => let '(v_selection_3, v_remaining_budget_4) := st0 in
+  (Ok v_selection_3)
+  | inr r1 => r1
+  end
+  | inr r0 => r0
+  end.
+(* what every variable of the function is bound to, and whether that object is mutated in place *)
+Definition gen_alias_greedy_utilitarian_scheme_additive : list py_alias :=
+  [mkAlias "instance"%string (AliasOf "instance"%string) false;
+   mkAlias "profile"%string Scalar false;
+   mkAlias "sat_profile"%string Scalar false;
+   mkAlias "budget_allocation"%string (AliasOf "budget_allocation"%string) false;
+   mkAlias "tie_breaking"%string Scalar false;
+   mkAlias "projects"%string Fresh false;
+   mkAlias "projects"%string Fresh true;
+   mkAlias "project"%string Scalar false;
+   mkAlias "selection"%string Fresh true;
+   mkAlias "ordered_projects"%string Fresh false;
+   mkAlias "remaining_budget"%string Scalar false].
+
 End Gen.
-Definition gen_ctrl_untranslated : list string := [].
+Definition gen_untranslated_exhaustion : list string := [].
+Definition gen_untranslated_composition : list string := [].
+Definition gen_untranslated_greedy : list string := [].
